@@ -27,6 +27,11 @@ ExpectedToks(np, ne, na) ==
       mixIn  == rel \o Rep("L", na)
   IN IF na >= 1 /\ np + ne + na > 1 THEN <<"(mixed">> \o mixIn \o <<")">> ELSE mixIn
 
+(* A message with a PGP type (WithPGPType / SetPGPType) is one flat multipart of that kind - "encrypted" or     *)
+(* "signed" - around every leaf in call order (RFC 3156): the layers of ExpectedToks do not exist (X02)        *)
+ExpectedToksPgp(pgp, n) == <<"(" \o pgp>> \o Rep("L", n) \o <<")">>
+ExpectedFor(pgp, np, ne, na) == IF pgp = "" THEN ExpectedToks(np, ne, na) ELSE ExpectedToksPgp(pgp, np + ne + na)
+
 (* With at most one leaf no multipart layer is required and either form is *)
 (* accepted (DESIGN.md 7.1): compare the leaves only.                      *)
 LeavesOnly(toks) == SelectSeq(toks, LAMBDA t : t = "L")
@@ -63,6 +68,7 @@ CONSTANTS
   PDESCS, FDESCS,       \* part / file description classes ("" = none)
   FNAMES, FCIDS,        \* file name / content-id classes ("" = default)
   OPSEQS,               \* render-operation sequences (C11)
+  PGPS,                 \* PGP/MIME type of the message: subset of {"", "encrypted", "signed"} (X02)
   STYLES,               \* how the configuration reaches the message: "" = options at construction, "set" = the setter methods of Msg and Part afterwards
   MWS,                  \* middlewares of the caller ("" = none, "attach", "body"): applied by every render before signing
   SMIMES,               \* S/MIME signing (C08): set of [key, inter]; key "" = unsigned
@@ -88,10 +94,10 @@ AllProgs ==
     parts  |-> [k \in 1..np |-> PartSpec(k, rot + np + 2 * ne + 3 * na, pe[k], k = dl, IF k = np THEN pd ELSE "")],
     embeds |-> [k \in 1..ne |-> FileSpec(k, rot + np + ne, fe, TRUE, IF k = 1 THEN fd ELSE "", IF k = 1 THEN fn ELSE "", fc)],
     atts   |-> [k \in 1..na |-> FileSpec(k, rot + na + 4, fa, FALSE, IF k = na THEN fd ELSE "", IF k = na THEN fn ELSE "", "")],
-    boundary |-> b, hdrs |-> hs, smime |-> sm, mw |-> mw, style |-> st] :
+    boundary |-> b, hdrs |-> hs, smime |-> sm, mw |-> mw, style |-> st, pgp |-> pg] :
      e \in ENCS, np \in 0..MAXP, ne \in 0..MAXE, na \in 0..MAXA, rot \in ROTS, b \in BOUNDARIES,
      pe \in [1..MAXP -> PENCS], fe \in FENCS, fa \in FENCS, dl \in DELS,
-     hs \in HDRS, pd \in PDESCS, fd \in FDESCS, fn \in FNAMES, fc \in FCIDS, sm \in SMIMES, mw \in MWS, st \in STYLES}
+     hs \in HDRS, pd \in PDESCS, fd \in FDESCS, fn \in FNAMES, fc \in FCIDS, sm \in SMIMES, mw \in MWS, st \in STYLES, pg \in PGPS}
 
 (* a message has at least one leaf *)
 Live(p) == SelectSeq(p.parts, LAMBDA x : ~x.del)
@@ -109,7 +115,7 @@ NE == Len(prog.prog.embeds)
 NA == Len(prog.prog.atts)
 
 (* design invariants of the expected structure *)
-TreeWellFormed == WellNested(ExpectedToks(NP, NE, NA), <<>>)
+TreeWellFormed == WellNested(ExpectedToks(NP, NE, NA), <<>>) /\ WellNested(ExpectedFor(prog.prog.pgp, NP, NE, NA), <<>>)
 LeavesInOrder  == Len(LeavesOnly(ExpectedToks(NP, NE, NA))) = NP + NE + NA
 NoDegenerateLayer ==
   LET t == ExpectedToks(NP, NE, NA) IN
@@ -118,7 +124,7 @@ NoDegenerateLayer ==
      Cardinality({j \in (i + 1)..Len(t) : t[j] # ")"}) >= 2
 
 Scenario == [prog |-> prog.prog, ops |-> prog.ops, roundtrip |-> prog.roundtrip,
-             tree |-> [toks |-> ExpectedToks(NP, NE, NA)]] @@
+             tree |-> [toks |-> ExpectedFor(prog.prog.pgp, NP, NE, NA)]] @@
             (IF prog.fault.kind = "none" THEN <<>> ELSE [fault |-> prog.fault])
 Emit == pc = "done" => PrintT(<<"SCENARIO", ToJson(Scenario)>>)
 =============================================================================
